@@ -25,11 +25,13 @@ Fixpoint assoc_s {A} (k : string) (l : list (string * A)) : option A :=
 
 Section Visitor.
 Variable St : Type.
-(* None = the tables mention something the model cannot interpret (fail closed) *)
-Definition M := St -> option bool * St.
-Definition ret (b : bool) : M := fun st => (Some b, st).
+(* The model is total.  That the extracted tables only mention attributes and shapes the model
+   interprets is a separate, static, decidable condition ([wf_tbl] below), re-checked on every run;
+   where it fails the value computed here ([fail_closed]) means nothing. *)
+Definition M := St -> bool * St.
+Definition ret (b : bool) : M := fun st => (b, st).
 Definition bind (m : M) (k : bool -> M) : M :=
-  fun st => match m st with (Some b, st') => k b st' | (None, st') => (None, st') end.
+  fun st => let '(b, st') := m st in k b st'.
 
 Inductive fval := FM (m : M) | FList (ms : list M) | FStr (s : string).
 Definition env := list (string * fval).
@@ -42,7 +44,7 @@ Fixpoint any_eager (ms : list M) : M :=
   match ms with [] => ret false | m :: ms' => bind m (fun b => bind (any_eager ms') (fun r => ret (b || r))) end.
 Fixpoint all_eager (ms : list M) : M :=
   match ms with [] => ret true | m :: ms' => bind m (fun b => bind (all_eager ms') (fun r => ret (b && r))) end.
-Definition fail_closed : M := fun st => (None, st).
+Definition fail_closed : M := ret false.
 
 Fixpoint eval (e : bexp) (en : env) : M :=
   match e with
@@ -124,3 +126,39 @@ with v_nitem (n : nitem) : M :=
   end.
 
 End Visitor.
+
+(* ---------------- static well-formedness of an extracted method table ---------------- *)
+Inductive kind := KNode | KList | KStr.
+Definition class_env : list (string * list (string * kind)) :=
+  [("NameLeaf", [("value", KStr)]); ("StringLeaf", [("value", KStr)]); ("Group", [("rhs", KNode)]);
+   ("Opt", [("node", KNode)]); ("Repeat0", [("node", KNode)]); ("Repeat1", [("node", KNode)]);
+   ("Gather", [("separator", KNode); ("node", KNode)]); ("PositiveLookahead", [("node", KNode)]);
+   ("NegativeLookahead", [("node", KNode)]); ("Forced", [("node", KNode)]); ("Cut", []);
+   ("Rhs", [("alts", KList)]); ("Alt", [("items", KList)]); ("NamedItem", [("item", KNode)]);
+   ("Rule", [("rhs", KNode)])].
+Definition kind_eqb (a b : kind) : bool :=
+  match a, b with KNode, KNode | KList, KList | KStr, KStr => true | _, _ => false end.
+Definition has_kind (en : list (string * kind)) (f : string) (k : kind) : bool :=
+  match assoc_s f en with Some k' => kind_eqb k k' | None => false end.
+Fixpoint wf_bexp (specials_ok : bool) (en : list (string * kind)) (e : bexp) : bool :=
+  match e with
+  | BConst _ => true
+  | BVisit f => has_kind en f KNode
+  | BOr a b | BAnd a b | BSeq a b => wf_bexp specials_ok en a && wf_bexp specials_ok en b
+  | BNot a => wf_bexp specials_ok en a
+  | BNotField f | BStartsWith f _ => has_kind en f KStr
+  | BAnyLazy f | BAnyEager f | BAllLazy f | BAllEager f => has_kind en f KList
+  | BSpecial _ => specials_ok
+  end.
+Definition wf_tbl (methods : list (string * bexp)) (iter_fields : list (string * list string)) : bool :=
+  forallb (fun ce =>
+    let cls := fst ce in
+    match assoc_s ("visit_" ++ cls) methods with
+    | Some e => wf_bexp (String.eqb cls "NamedItem" || String.eqb cls "NameLeaf" || String.eqb cls "Rule") (snd ce) e
+    | None => match assoc_s cls iter_fields with
+              | Some fs => forallb (fun f => match assoc_s f (snd ce) with Some KStr => false | Some _ => true | None => false end) fs
+              | None => false
+              end
+    end) class_env
+  (* no method for a class that does not exist (e.g. visit_Repeat, visit_LookAhead: never dispatched) *)
+  && forallb (fun me => existsb (fun ce => String.eqb (fst me) ("visit_" ++ fst ce)) class_env) methods.
